@@ -7,8 +7,8 @@
 From Coq Require Import NArith ZArith List Bool String.
 Import ListNotations.
 From Verif.lib Require Import Term.
-From Verif.model Require Import Overflow Rewards RewardsSpec.
-From Verif.proofs Require Import RewardsProofs RewardsSpecProofs.
+From Verif.model Require Import Overflow Rewards RewardsPool RewardsSpec.
+From Verif.proofs Require Import RewardsProofs RewardsSpecProofs RewardsPoolProofs.
 Open Scope N_scope.
 
 (* Part 1 of the property.  Whenever the level moves (there are reward units and nothing
@@ -135,6 +135,82 @@ Theorem C25_check_sound :
   next_rewards_state s nr p pool units = Some (mkR l' r' f' c').
 Proof. exact check_sound. Qed.
 Print Assumptions C25_check_sound.
+
+(* ---------- second mechanism: the pool withdrawal in StartEvaluator (model/RewardsPool.v) ---------- *)
+
+(* The block is accepted EXACTLY when the level does not decrease and the pool still holds
+   MinBalance AFTER paying units x (level increase); then exactly that amount leaves the pool.
+   All uint64 inputs; the three error exits are the complement. *)
+Theorem C25_pool_withdrawal_ok_iff : forall prev new pool units minbal pn,
+  prev < 2 ^ 64 -> new < 2 ^ 64 -> pool < 2 ^ 64 -> units < 2 ^ 64 -> minbal < 2 ^ 64 ->
+  (withdraw prev new pool units minbal = WOk pn <->
+   prev <= new /\ units * (new - prev) + minbal <= pool /\ pn = pool - units * (new - prev)).
+Proof. exact withdraw_ok_iff. Qed.
+Print Assumptions C25_pool_withdrawal_ok_iff.
+
+Theorem C25_pool_accepts_iff_allowed : forall prev new pool units minbal,
+  prev < 2 ^ 64 -> new < 2 ^ 64 -> pool < 2 ^ 64 -> units < 2 ^ 64 -> minbal < 2 ^ 64 ->
+  ((exists pn, withdraw prev new pool units minbal = WOk pn) <->
+   withdraw_allowed prev new pool units minbal = true).
+Proof. exact withdraw_accepts_iff. Qed.
+Print Assumptions C25_pool_accepts_iff_allowed.
+
+Theorem C25_pool_accepted_guarantees : forall prev new pool units minbal pn,
+  prev < 2 ^ 64 -> new < 2 ^ 64 -> pool < 2 ^ 64 -> units < 2 ^ 64 -> minbal < 2 ^ 64 ->
+  withdraw prev new pool units minbal = WOk pn ->
+  pn + units * (new - prev) = pool /\ minbal <= pn /\ units * (new - prev) < 2 ^ 64 /\ pn < 2 ^ 64.
+Proof. exact withdraw_ok_guarantees. Qed.
+Print Assumptions C25_pool_accepted_guarantees.
+
+(* Composition: the header's rewards state is NextRewardsState of the previous one (same pool
+   balance and reward units, as StartEvaluator generates / validates it).  If the block is
+   accepted the pool keeps MinBalance and what left it is exactly what the level increase
+   hands out: rate in effect + old residue - new residue; nothing when the level did not move. *)
+Theorem C25_withdrawal_matches_distribution : forall s r p pool units s' pn,
+  rstate_bounded s -> p_minbal p < 2 ^ 64 -> pool < 2 ^ 64 -> units < 2 ^ 64 ->
+  next_rewards_state s r p pool units = Some s' ->
+  withdraw (r_level s) (r_level s') pool units (p_minbal p) = WOk pn ->
+  p_minbal p <= pn /\
+  if distributes s (rate_in_effect p s s') units
+  then pn + rate_in_effect p s s' + r_residue s = pool + r_residue s' /\ r_residue s' < units
+  else pn = pool /\ r_residue s' = r_residue s.
+Proof. exact withdrawal_matches_distribution. Qed.
+Print Assumptions C25_withdrawal_matches_distribution.
+
+Theorem C25_pool_model_meets_spec : forall prev new pool units minbal,
+  prev < 2 ^ 64 -> new < 2 ^ 64 -> pool < 2 ^ 64 -> units < 2 ^ 64 -> minbal < 2 ^ 64 ->
+  spec_ok_pool prev new pool units minbal (withdraw prev new pool units minbal) = true.
+Proof. exact pool_model_meets_spec. Qed.
+Print Assumptions C25_pool_model_meets_spec.
+
+(* the oracle on ANY observed outcome is the acceptance iff *)
+Theorem C25_spec_ok_pool_sound : forall prev new pool units minbal obs,
+  spec_ok_pool prev new pool units minbal obs = true ->
+  match obs with
+  | WOk pn => prev <= new /\ pn + units * (new - prev) = pool /\ minbal <= pn
+  | _ => ~ (prev <= new /\ units * (new - prev) + minbal <= pool)
+  end.
+Proof. exact spec_ok_pool_sound. Qed.
+Print Assumptions C25_spec_ok_pool_sound.
+
+Theorem C25_check_pool_sound : forall prev new pool units minbal obs o,
+  parse_wres obs = Some o ->
+  (let case := TL [TS "pool"; tn prev; tn new; tn pool; tn units; tn minbal; obs] in
+   check case = v_ok \/ check case = v_triv) ->
+  spec_ok_pool prev new pool units minbal o = true.
+Proof. exact check_pool_sound. Qed.
+Print Assumptions C25_check_pool_sound.
+
+Example C25_pool_nonvacuous :
+  withdraw 10 35 6003 4 1000 = WOk 5903 /\                 (* 4 x 25 leaves the pool *)
+  withdraw 10 35 1099 4 1000 = WErrMinBalance /\           (* 999 would remain: below the minimum AFTER *)
+  withdraw 10 35 1100 4 1000 = WOk 1000 /\                 (* exactly the minimum remains *)
+  withdraw 10 35 99 4 0 = WErrWithdraw /\
+  withdraw 10 9 6003 4 1000 = WErrLevels /\
+  withdraw 0 (2 ^ 63) (2 ^ 64 - 1) 2 0 = WErrWithdraw /\   (* units x perUnit overflows *)
+  (* composed with the first example of C25_nonvacuous: 103 = rate 100 + residue 3, residue' 3 *)
+  withdraw 10 35 6003 4 1000 = WOk (6003 - (100 + 3 - 3)).
+Proof. vm_compute. repeat split. Qed.
 
 (* anti-vacuity: concrete calls that meet the hypotheses and exercise every branch:
    refresh with PendingResidueRewards; refresh whose MinBalance+residue overflows (rate 0);
